@@ -75,24 +75,31 @@ def main():
             run(["git", "-C", "/repo", "worktree", "remove", "--force", wt])
         print("confirm %s: applies=%s clean=%s patched=%s tests=%r" % (name, applies, rc_clean, rc_mut, tail))
     results = meta.setdefault("checks", {})
-    for chk in [c for c in args.checks.split(",") if c]:
-        rc, out = run(["git", "-C", "/repo", "apply", patch])
-        if rc != 0:
-            print("cannot apply to /repo:", out)
-            continue
+    chks = [c for c in args.checks.split(",") if c]
+    if chks:
+        # run the checks against a scratch worktree with the patch applied (VERIF_REPO), so that /repo itself stays
+        # untouched and other checks can run at the same time; equivalent to git -C /repo apply / checkout
+        wt = tempfile.mkdtemp(prefix="seedchk.", dir="/tmp")
+        os.rmdir(wt)
+        rc, out = run(["git", "-C", "/repo", "worktree", "add", "-q", "--detach", wt, "HEAD"])
+        assert rc == 0, out
         try:
-            rc, out = run([os.path.join(HERE, "check.py"), chk, "--tier", args.tier], cwd=HERE)
+            rc, out = run(["git", "apply", patch], cwd=wt)
+            if rc != 0:
+                print("cannot apply to current tree:", out)
+                chks = []
+            for chk in chks:
+                env = dict(os.environ, VERIF_REPO=wt)
+                rc, out = run([os.path.join(HERE, "check.py"), chk, "--tier", args.tier], cwd=HERE, env=env)
+                m = re.search(r"VIOLATION property=(\S+) replay=(\S+)", out)
+                kind = re.search(r"kind=(\S+)", out)
+                results[chk] = {"tier": args.tier, "exit": rc, "detected": rc == 1 and bool(m),
+                                "kind": kind.group(1) if kind else None,
+                                "repo_head": run(["git", "-C", "/repo", "rev-parse", "--short", "HEAD"])[1].strip()}
+                print("  %s on %s: exit=%d %s" % (chk, name, rc, "DETECTED " + (kind.group(1) if kind else "") if rc == 1 else "missed" if rc == 0 else "ERROR\n" + out[-800:]))
         finally:
-            run(["git", "-C", "/repo", "checkout", "--", "."])
-        m = re.search(r"VIOLATION property=(\S+) replay=(\S+)", out)
-        kind = re.search(r"kind=(\S+)", out)
-        results[chk] = {"tier": args.tier, "exit": rc, "detected": rc == 1 and bool(m),
-                        "kind": kind.group(1) if kind else None}
-        print("  %s on %s: exit=%d %s" % (chk, name, rc, "DETECTED " + (kind.group(1) if kind else "") if rc == 1 else "missed" if rc == 0 else "ERROR\n" + out[-800:]))
+            run(["git", "-C", "/repo", "worktree", "remove", "--force", wt])
     json.dump(meta, open(os.path.join(dst, "meta.json"), "w"), indent=1)
-    st = run(["git", "-C", "/repo", "status", "--short"])[1].strip()
-    if st:
-        print("WARNING /repo not clean:", st)
 
 
 if __name__ == "__main__":
